@@ -1,9 +1,12 @@
 package main
 
 import (
+	"bytes"
 	"context"
 	"errors"
 	"fmt"
+	"io"
+	"os"
 	"runtime"
 	"sort"
 	"strings"
@@ -63,6 +66,10 @@ func c08stress(c *Ctx) {
 		delay := gen.Pick(r, []int{0, 0, 1, 20})
 		yield := r.Bool()
 		multiline := r.Bool()
+		extraLines := 0 // lines beyond the second
+		if multiline && r.Bool() {
+			extraLines = r.Range(1, 3)
+		}
 
 		// context keys registered on every logger; half of the calls carry their own id under them in the context
 		useCtx := r.Bool()
@@ -87,9 +94,23 @@ func c08stress(c *Ctx) {
 			w.Core().Yield = yield
 			return w
 		}
+		// one logger may write to the library's own file writer (NewFileWriter); its records are read back from the file
+		fileLogger, filePath := -1, ""
+		if r.Bool() {
+			fileLogger = r.Intn(nLog)
+			filePath = fmt.Sprintf("c08-%d-%d.log", idx, fileLogger)
+			_ = os.Remove(filePath)
+			defer os.Remove(filePath)
+		}
 		for i := 0; i < nLog; i++ {
 			f := Format(r.Intn(3))
-			w := mkw(i)
+			var w io.Writer = mkw(i)
+			if i == fileLogger {
+				if f == FColor {
+					f = FLogfmt // one record per line in the file
+				}
+				w = slog.NewFileWriter(filePath)
+			}
 			var e *slog.Entry
 			parent := -1
 			if i == 0 || r.P(30) {
@@ -171,6 +192,9 @@ func c08stress(c *Ctx) {
 					msg := pa + id
 					if multiline {
 						msg += "\nl2-" + id
+						for x := 0; x < extraLines; x++ {
+							msg += fmt.Sprintf("\nl%d-%s", x+3, id)
+						}
 					}
 					args := []any{"id", id, "a1", id + "-a1", "n", k, sharedCallGroup, slog.Group("pc", "id", id, "x", k), "err", errShared, "spy", ctxSpy{g, spyMu, spyM}}
 					// jump above the pooled size hint now and then, from several goroutines at once
@@ -193,6 +217,9 @@ func c08stress(c *Ctx) {
 						msg = pn + id
 						if multiline {
 							msg += "\nl2-" + id
+							for x := 0; x < extraLines; x++ {
+								msg += fmt.Sprintf("\nl%d-%s", x+3, id)
+							}
 						}
 						if gr.Bool() && !withCtx {
 							l.Info(msg)
@@ -234,7 +261,18 @@ func c08stress(c *Ctx) {
 		wg.Wait()
 
 		evs := log.Events()
-		desc := map[string]any{"goroutines": G, "calls_per_goroutine": N, "gomaxprocs": procs, "loggers": nLog, "inherit": inherit, "writer_delay_us": delay, "yield": yield, "multiline": multiline, "context_keys": useCtx,
+		if fileLogger >= 0 {
+			// what the file holds, line by line, as if each line had been one Write to that logger's destination
+			b, _ := os.ReadFile(filePath)
+			lines := bytes.SplitAfter(b, []byte("\n"))
+			for _, ln := range lines {
+				if len(ln) > 0 {
+					evs = append(evs, mon.Event{W: lgs[fileLogger].wid, Kind: mon.EvWrite, Data: ln})
+				}
+			}
+			c.R.Add("records_read_back_from_a_NewFileWriter_file", int64(len(lines)))
+		}
+		desc := map[string]any{"file_writer_logger": fileLogger, "goroutines": G, "calls_per_goroutine": N, "gomaxprocs": procs, "loggers": nLog, "inherit": inherit, "writer_delay_us": delay, "yield": yield, "multiline": multiline, "message_lines": map[bool]int{false: 1, true: 2 + extraLines}[multiline], "context_keys": useCtx,
 			"formats": func() []string {
 				var s []string
 				for _, l := range lgs {
@@ -275,7 +313,7 @@ func c08stress(c *Ctx) {
 				gotBlanks[li]++
 				continue
 			}
-			id, why := c08judge(lgs[li].f, e.Data, expKeys[li], multiline)
+			id, why := c08judge(lgs[li].f, e.Data, expKeys[li], multiline, extraLines)
 			if why != "" {
 				bad++
 				c.R.Violation(idx, "torn-or-corrupt", "C08/record/"+lgs[li].f.String(), fmt.Sprintf("payload at %s is not the complete record of exactly one call: %s\npayload: %s", e.W, why, q(clip(string(e.Data), 1500))), desc)
@@ -331,7 +369,7 @@ func c08stress(c *Ctx) {
 }
 
 // c08judge decodes a payload and checks that it is the complete record of one call.
-func c08judge(f Format, p []byte, ownKeys []string, multiline bool) (id string, why string) {
+func c08judge(f Format, p []byte, ownKeys []string, multiline bool, extraLines int) (id string, why string) {
 	d, err := decodeRecord(f, p, true, false)
 	if err != nil {
 		return "", "does not decode: " + err.Error()
@@ -349,6 +387,14 @@ func c08judge(f Format, p []byte, ownKeys []string, multiline bool) (id string, 
 	id = m[2:end]
 	if multiline && !strings.Contains(m, "l2-"+id) {
 		return id, "second message line does not carry the same id: " + q(clip(m, 120))
+	}
+	for x := 0; multiline && x < extraLines; x++ {
+		if strings.Count(m, fmt.Sprintf("l%d-%s", x+3, id)) != 1 {
+			return id, fmt.Sprintf("message line %d of the call is missing or repeated: %s", x+3, q(clip(m, 200)))
+		}
+	}
+	if strings.Contains(m, fmt.Sprintf("l%d-", 3+extraLines)) || (!multiline && strings.Contains(m, "l2-")) {
+		return id, "the message carries a line the call did not have: " + q(clip(m, 200))
 	}
 	got := map[string]string{}
 	for _, a := range d.Attrs {
